@@ -25,14 +25,14 @@ PROPERTY = "C06"
 LEVEL = "exploration"
 RULE = ("recordings of 12000-90000 samples x 65/97/385 channels, batch sizes {4096, 6144, 8192, 16384}, worker counts 1..8 (worker boundaries "
         "fall everywhere relative to batch seams; some workers start at or beyond the last batch), options {append, ns2add, channel "
-        "rejection, whitening scalar/matrix, k-filter/CAR, nc_out}, contents with saturated stretches. Schedules: per-worker write sets (all "
+        "rejection (with a silent and a noisy channel present), whitening scalar/matrix, k-filter/CAR, nc_out, caller-chosen butter_kwargs / k_kwargs}, contents with saturated stretches. Schedules: per-worker write sets (all "
         "interleavings decided by coverage + agreement), executed orders identity/reverse/random, real loky runs. Non-trivial: >= 3 batches, "
         ">= 2 workers, >= 1 saturated stretch; distinct = distinct (ns, nbatch, workers, options)")
 ASSUMPTIONS = ["pyfftw replaced by a scipy.fft stand-in (numerically equivalent to +-1 LSB of the int16 output; worker-count identity and sync identity do not depend on it)",
                "workers share nothing but the output / QC files", "the batch-wise reference re-uses the repository's own per-batch building blocks (saturation, fshift, "
                "kfilt/car): it judges the batching / seek / stitch logic, not the DSP (C05, C16 do)"]
 REQUIRED = {"configs": 4, "explicit_width_configs": 3, "stale_output_checked": 4, "width_compared": 3, "workers_probed": 10, "write_rows_judged": 50000, "orders_executed": 8, "sync_columns_compared": 4, "reference_compared": 4,
-            "saturated_samples": 10}
+            "saturated_samples": 10, "reject_runs_with_bad_channels": 1, "custom_filter_settings": 1}
 CASE_TIMEOUT = 400.0
 MAX_PROCS = 10
 TAPER = 1024
@@ -59,7 +59,7 @@ def gen_cases(seed, tier):
             if i % 5 == 0:      # aligned lengths: the last batch exactly full, +-1
                 c["ns"] = c["nbatch"] + int(rng.integers(0, 8)) * (c["nbatch"] - 2 * TAPER) + int(rng.choice([-1, 0, 0, 1]))
         c["ncout"] = [None, None, "n", "less"][i % 4]      # explicit output width, crossed with every other option
-        c.update(cls="sched", seed=seed * 1000 + i, opt=(i % 7) if i < 8 or i >= 12 else [2, 0, 2, 0][i - 8], _w=6 + c["ns"] / 10000 * (c["n"] / 96))
+        c.update(cls="sched", seed=seed * 1000 + i, opt=(i % 7) if i < 8 else ([2, 7, 2, 6][i - 8] if i < 12 else i % 8), _w=6 + c["ns"] / 10000 * (c["n"] / 96))
         cases.append(c)
     for i in range(2 if tier == "quick" else 10):
         cases.append(dict(cls="loky", ns=int(rng.integers(14000, 40000)), nbatch=int(rng.choice([4096, 8192])), n=64, seed=seed * 1000 + 500 + i,
@@ -71,13 +71,18 @@ def gen_cases(seed, tier):
 
 
 # ------------------------------------------------------------------ recording
-def make_recording(rng, d, ns, n, name="rec"):
+def make_recording(rng, d, ns, n, name="rec", faults=False):
     kind = "3B2" if n != 384 or rng.random() < 0.5 else "NP2.4"
     rec = G.make(rng, kind=kind, sites=G.draw_sites(rng, kind, n, "dense"), ns=ns, raw=np.zeros((1, 1), np.int16))
     s2v = rec.s2v[:n]
     t = np.arange(ns)[:, None]
     x = rng.standard_normal((ns, n)) * 15e-6 + 40e-6 * np.sin(2 * np.pi * t * rng.uniform(300, 3000, (1, n)) / 30000.0) + \
         rng.standard_normal((ns, 1)) * 30e-6
+    if faults:
+        # a silent and a strongly noisy channel: channel rejection has something to label, repair and (for the spatial filter) keep inside
+        cd, cn = int(rng.integers(5, n // 2 - 5)), int(rng.integers(n // 2 + 5, n - 5))
+        x[:, cd] = rng.standard_normal(ns) * 1e-7
+        x[:, cn] += rng.standard_normal(ns) * 400e-6
     raw = np.clip(np.round(x / s2v[None, :]), -32768, 32767).astype(np.int16)
     # saturated stretches (all channels at full scale), one of them across a batch seam region
     sat = []
@@ -159,14 +164,19 @@ def canonical_batches(ns, nbatch):
     return out
 
 
-def reference(V, F, sr, rec, nbatch, k_filter, wrot, labels, nc_out, ns2add, h):
+def reference(V, F, sr, rec, nbatch, k_filter, wrot, labels, nc_out, ns2add, h, butter_kwargs=None, k_kwargs=None):
     """batch-wise in-memory destriping with the documented taper margins, stitched by the harness"""
     import spikeglx
     ns, n = rec.ns, rec.n
     fs = sr.fs
     taper = np.r_[0, scipy.signal.windows.cosine((TAPER - 1) * 2), 0]
-    sos = scipy.signal.butter(N=3, Wn=300 / fs * 2, btype="highpass", output="sos")
-    _, k_kwargs, spatial = V._get_destripe_parameters(fs, None, None, k_filter)
+    # the documented defaults, written out here (not taken from the library's own helper)
+    bk = butter_kwargs or {"N": 3, "Wn": 300 / fs * 2, "btype": "highpass"}
+    kk = k_kwargs or {"ntr_pad": 60, "ntr_tap": 0, "lagc": int(fs / 10), "butter_kwargs": {"N": 3, "Wn": 0.01, "btype": "highpass"}}
+    sos = scipy.signal.butter(**bk, output="sos")
+
+    def spatial(dat):
+        return V.kfilt(dat, **kk) if k_filter else V.car(dat, **kk)
     out = np.zeros((ns + ns2add, nc_out), np.float64)
     rows = []
     for first, last in canonical_batches(ns, nbatch):
@@ -200,6 +210,10 @@ def run_destripe(V, b, out, nbatch, nproc, opts, h=None):
     kw = dict(output_file=out, nbatch=nbatch, nprocesses=nproc, reject_channels=opts.get("reject", False), k_filter=opts.get("k_filter", True),
               wrot=opts.get("wrot"), ns2add=opts.get("ns2add", 0), append=opts.get("append", False), nc_out=opts.get("nc_out"),
               reader_kwargs=opts.get("reader_kwargs"))
+    if opts.get("k_kwargs") is not None:
+        kw["k_kwargs"] = {k: (dict(v) if isinstance(v, dict) else v) for k, v in opts["k_kwargs"].items()}
+    if opts.get("butter_kwargs") is not None:
+        kw["butter_kwargs"] = dict(opts["butter_kwargs"])
     return V.decompress_destripe_cbin(b, **kw)
 
 
@@ -218,6 +232,15 @@ def options(rng, opt, n):
         o["nc_out"] = n      # without the sync column
     elif opt == 6:
         o["reject"] = True   # channel rejection: labels from detect_bad_channels_cbin, interpolation + exclusion of outside-brain channels
+    elif opt == 7:
+        # filter settings chosen by the caller: temporal high-pass and spatial filter / referencing parameters
+        o["butter_kwargs"] = {"N": int(rng.integers(2, 5)), "Wn": float(rng.uniform(150, 600)) / 30000 * 2, "btype": "highpass"}
+        if rng.random() < 0.5:
+            o["k_kwargs"] = {"ntr_pad": int(rng.choice([0, 20, 60])), "ntr_tap": 0, "lagc": [None, int(rng.integers(300, 6000))][int(rng.integers(0, 2))],
+                             "butter_kwargs": {"N": int(rng.integers(2, 4)), "Wn": float(rng.uniform(0.01, 0.1)), "btype": "highpass"}}
+        else:
+            o["k_filter"] = False
+            o["k_kwargs"] = {"operator": "average"}
     return o
 
 
@@ -238,7 +261,7 @@ def run_case(case):
     try:
         if cls == "sched":
             nw = case["workers"]
-            b, rec = make_recording(rng, d, ns, n)
+            b, rec = make_recording(rng, d, ns, n, faults=case["opt"] == 6)
             opts = options(rng, case["opt"], n)
             if case.get("ncout") == "n":
                 opts["nc_out"] = n
@@ -250,7 +273,7 @@ def run_case(case):
             ns2add = opts.get("ns2add", 0)
             total_rows = ns + ns2add
             rowbytes = nc_out * 2
-            label = f"ns={ns} nbatch={nbatch} (K={K} batches) workers={nw} n={n} opts={ {k: (v if np.isscalar(v) else 'matrix') for k, v in opts.items()} }"
+            label = f"ns={ns} nbatch={nbatch} (K={K} batches) workers={nw} n={n} opts={ {k: (v if np.isscalar(v) or isinstance(v, dict) else 'matrix') for k, v in opts.items()} }"
             res.count("configs")
             res.count("saturated_samples", sum(e - a for a, e in rec.sat))
             chunk = int(ns / nw)
@@ -298,7 +321,13 @@ def run_case(case):
             if img1 is not None and img1.shape[0] == total_rows:
                 sr = spikeglx.Reader(b)
                 labels = V.detect_bad_channels_cbin(sr) if opts.get("reject") else None
-                ref, _ = reference(V, F, sr, rec, nbatch, opts.get("k_filter", True), opts.get("wrot"), labels, nc_out, ns2add, sr.geometry)
+                if labels is not None:
+                    res.count("reject_runs")
+                    res.count("reject_runs_with_bad_channels", int(np.any((labels == 1) | (labels == 2))))
+                if opts.get("butter_kwargs") is not None:
+                    res.count("custom_filter_settings")
+                ref, _ = reference(V, F, sr, rec, nbatch, opts.get("k_filter", True), opts.get("wrot"), labels, nc_out, ns2add, sr.geometry,
+                                   butter_kwargs=opts.get("butter_kwargs"), k_kwargs=opts.get("k_kwargs"))
                 sr.close()
                 # the code casts by truncation: compare integers with integers (two values closer than 1 truncate to integers at most 1 apart)
                 mcol = min(n, nc_out)
